@@ -9,10 +9,13 @@
 (*     rho = n M1      mass = rho V                                        *)
 (*     n_i = a_i n     rho_i = a_i m_i n     M_i = rho_i V                 *)
 (*     SUM rho_i = rho SUM M_i = mass                                      *)
-(* in whatever compatible units rho, n, V were given.  a_i is the given    *)
-(* proportion (count, number fraction) or, for mass fractions, p_i / m_i   *)
-(* up to a common factor - the obligations for that mode are written so    *)
-(* that they do not depend on the factor.                                  *)
+(* in whatever compatible units rho, n, V were given - and again after a   *)
+(* component that is already there was topped up by add(), and after the   *)
+(* caller converted the reported quantities / density attributes in place  *)
+(* to other units.  a_i is the given proportion (count, number fraction)   *)
+(* or, for mass fractions, p_i / m_i up to a common factor - the           *)
+(* obligations for that mode are written so that they do not depend on     *)
+(* the factor.                                                             *)
 (*                                                                         *)
 (* MACHINE: transcription of Composite._norm (composite_mass), Element     *)
 (* (composite_mass = mass of ONE atom), Matter._norm and                   *)
@@ -54,10 +57,11 @@ VUnits == {"cm3", "l", "m3"}
 
 ---------------------------------------------------------------------------
 \* values of one object: [raises, rho, n, mass, rn, rrho, rM] (std units g/cm3, cm-3, g)
-Vals(rho, n, V, a, ms, hasV) ==
+\* nr is the number density the rows are computed from (= n unless a mutation says otherwise)
+Vals(rho, n, nr, V, a, ms, hasV) ==
   LET k == Len(a)
-      rn   == [i \in 1..k |-> QMul(a[i], n)]
-      rrho == [i \in 1..k |-> QMul(QMul(QMul(a[i], ms[i]), CDa), n)]
+      rn   == [i \in 1..k |-> QMul(a[i], nr)]
+      rrho == [i \in 1..k |-> QMul(QMul(QMul(a[i], ms[i]), CDa), nr)]
   IN  [raises |-> FALSE, rho |-> rho, n |-> n, mass |-> IF hasV THEN QMul(rho, V) ELSE <<0, 1>>,
        rn |-> rn, rrho |-> rrho, rM |-> [i \in 1..k |-> IF hasV THEN QMul(rrho[i], V) ELSE <<0, 1>>]]
 Raises == [raises |-> TRUE, rho |-> <<0, 1>>, n |-> <<0, 1>>, mass |-> <<0, 1>>, rn |-> <<>>, rrho |-> <<>>, rM |-> <<>>]
@@ -69,18 +73,22 @@ Ideal(o, ps, ms, d, v) ==
       M1 == QMul(CDa, QSumSeq([i \in 1..Len(ps) |-> QMul(a[i], ms[i])]))
       ds == QMul(d, QP10(UExp(o.ud)))
       V  == QMul(v, QP10(UExp(o.uv)))
-  IN  IF o.given = "rho" THEN Vals(ds, QDiv(ds, M1), V, a, ms, o.vol)
-      ELSE Vals(QMul(ds, M1), ds, V, a, ms, o.vol)
+  IN  IF o.given = "rho" THEN Vals(ds, QDiv(ds, M1), QDiv(ds, M1), V, a, ms, o.vol)
+      ELSE Vals(QMul(ds, M1), ds, ds, V, a, ms, o.vol)
 
 \* machine
-Machine(o, ps, ms, d, v, mut) ==
+\*   ps    the proportions of the components now
+\*   pn    the proportions when Matter._norm last ran (= ps in the code as it is: add() always ends in _norm())
+\*   pert  the caller has converted the density attributes, in place, to other units (number density to m-3)
+Machine(o, ps, pn, pert, ms, d, v, mut) ==
   LET k  == Len(ps)
+      pd == IF mut = "stale_matter_norm" THEN pn ELSE ps
       \* composite_mass after the first j components, and whether it is a mass
       cmj(j) == IF o.cls = "element"
                 THEN (IF "element_proportion" \in Deviations THEN QMul(CDa, ms[1])       \* Element: self.mass, one atom
-                      ELSE QMul(CDa, QMul(ps[1], ms[1])))
-                ELSE IF o.mode = "MASS_FRACTION" THEN QSumSeq(SubSeq(ps, 1, j))         \* np.sum(proportion): a bare number
-                ELSE QMul(CDa, QSumSeq([i \in 1..j |-> QMul(ps[i], ms[i])]))
+                      ELSE QMul(CDa, QMul(pd[1], ms[1])))
+                ELSE IF o.mode = "MASS_FRACTION" THEN QSumSeq(SubSeq(pd, 1, j))         \* np.sum(proportion): a bare number
+                ELSE QMul(CDa, QSumSeq([i \in 1..j |-> QMul(pd[i], ms[i])]))
       cm == cmj(k)
       isMass == o.cls = "element" \/ o.mode # "MASS_FRACTION"
       ds == QMul(d, QP10(UExp(o.ud)))                                                   \* .to(standard unit)
@@ -95,7 +103,9 @@ Machine(o, ps, ms, d, v, mut) ==
       n   == IF o.given = "rho" THEN QDiv(ds, cm)
              ELSE IF incremental THEN QDiv(rho, cm) ELSE ds
       a   == IF mut = "n_not_scaled" THEN [i \in 1..k |-> <<1, 1>>] ELSE ps             \* rows use m.proportion
-      w   == Vals(rho, n, V, a, ms, o.vol)
+      \* data_matter multiplies the Quantity number_density (unit-aware); a mutation takes its bare number instead
+      nr  == IF mut = "n_unit_blind" /\ pert THEN QMul(n, QP10(6)) ELSE n
+      w   == Vals(rho, n, nr, V, a, ms, o.vol)
   IN  IF ~isMass THEN Raises                                                            \* Quantity.to(): unsupported conversion
       ELSE IF mut = "n_not_scaled"
            THEN [w EXCEPT !.rrho = [i \in 1..k |-> QMul(QMul(QMul(ps[i], ms[i]), CDa), n)],
@@ -136,8 +146,8 @@ ObjObl(nm, o, props, d, v) ==
                \o (IF o.cls # "element" THEN << Approx("row sum.M = mass", ob("sum.M"), ob("mass")) >> ELSE <<>>)
           ELSE <<>>)
 
-SameObl(a, b, o, k) ==
-  LET s(f) == Approx("units: same " \o f, Obs(b \o "." \o f), Obs(a \o "." \o f))
+SameObl(label, a, b, o, k) ==
+  LET s(f) == Approx(label \o ": same " \o f, Obs(b \o "." \o f), Obs(a \o "." \o f))
       RECURSIVE Per(_)
       Per(i) == IF i > k THEN <<>> ELSE
                 << s("row.n." \o IStr(i)), s("row.rho." \o IStr(i)) >> \o (IF o.vol THEN << s("row.M." \o IStr(i)) >> ELSE <<>>) \o Per(i + 1)
@@ -145,45 +155,74 @@ SameObl(a, b, o, k) ==
 
 \* the second object of a "units" scenario: the same physical inputs written in other units
 OtherObj(o) == [o EXCEPT !.ud = o.ud2, !.uv = o.uv2]
+(***************************************************************************)
+(* The objects of a scenario in the order the harness makes and observes   *)
+(* them.  how: build (from props, then steps add(component i, q)) |        *)
+(* perturb (the object of[1] after the caller converted every quantity it  *)
+(* reports or holds as an attribute, in place, to another unit).           *)
+(***************************************************************************)
+JOf(o, k) == IF o.j = 1 THEN 1 ELSE k
+EffTerms(o, k) == LET props == [i \in 1..k |-> Inp("A.p." \o IStr(i))]
+                  IN  IF o.kind = "add_existing" THEN [i \in 1..k |-> IF i = JOf(o, k) THEN Add(props[i], Inp("A.q")) ELSE props[i]]
+                      ELSE props
 Objects(o, k) ==
   LET props == [i \in 1..k |-> Inp("A.p." \o IStr(i))]
-      A == [name |-> "A", cls |-> o.cls, mode |-> o.mode, form |-> o.form, props |-> props, given |-> o.given, vol |-> o.vol,
-            d |-> Inp("A.d"), ud |-> o.ud, v |-> Inp("A.v"), uv |-> o.uv]
-  IN  IF o.kind = "single" THEN <<A>>
-      ELSE <<A, [A EXCEPT !.name = "B", !.ud = o.ud2, !.uv = o.uv2,
-                          !.d = Mul(Inp("A.d"), P10(UExp(o.ud) - UExp(o.ud2))),
-                          !.v = Mul(Inp("A.v"), P10(UExp(o.uv) - UExp(o.uv2)))]>>
+      A == [name |-> "A", how |-> "build", of |-> <<>>, cls |-> o.cls, mode |-> o.mode, form |-> o.form, props |-> props,
+            steps |-> IF o.kind = "add_existing" THEN <<[i |-> JOf(o, k), q |-> Inp("A.q")]>> ELSE <<>>,
+            given |-> o.given, vol |-> o.vol, d |-> Inp("A.d"), ud |-> o.ud, v |-> Inp("A.v"), uv |-> o.uv]
+  IN  CASE o.kind = "units" ->
+             <<A, [A EXCEPT !.name = "B", !.ud = o.ud2, !.uv = o.uv2,
+                            !.d = Mul(Inp("A.d"), P10(UExp(o.ud) - UExp(o.ud2))),
+                            !.v = Mul(Inp("A.v"), P10(UExp(o.uv) - UExp(o.uv2)))]>>
+        [] o.kind = "perturbed" -> <<A, [A EXCEPT !.name = "P", !.how = "perturb", !.of = <<"A">>]>>
+        [] OTHER -> <<A>>
 Obligations(o, k) ==
   LET objs == Objects(o, k) IN
-  ObjObl("A", o, objs[1].props, objs[1].d, objs[1].v)
-  \o (IF o.kind = "units" THEN ObjObl("B", OtherObj(o), objs[2].props, objs[2].d, objs[2].v) \o SameObl("A", "B", o, k) ELSE <<>>)
+  ObjObl("A", o, EffTerms(o, k), objs[1].d, objs[1].v)
+  \o (CASE o.kind = "units" -> ObjObl("B", OtherObj(o), objs[2].props, objs[2].d, objs[2].v) \o SameObl("units", "A", "B", o, k)
+         [] o.kind = "perturbed" -> ObjObl("P", o, objs[2].props, objs[2].d, objs[2].v)
+                                    \o SameObl("unit of a reported quantity changed", "A", "P", o, k)
+         [] OTHER -> <<>>)
 
-\* F(o, ps, ms, d, v) yields the values (ideal or machine); raises propagates
-ScVals(o, ps, ms, d, v, F(_, _, _, _, _)) ==
-  LET wA == F(o, ps, ms, d, v) IN
-  IF o.kind = "single" THEN <<wA>>
-  ELSE <<wA, F(OtherObj(o), ps, ms, QMul(d, QP10(UExp(o.ud) - UExp(o.ud2))), QMul(v, QP10(UExp(o.uv) - UExp(o.uv2))))>>
+\* F(o, ps, pn, pert, ms, d, v) yields the values (ideal or machine); raises propagates
+QAdded == <<2, 1>>                                \* model value of inp(A.q)
+ScVals(o, ps, ms, d, v, F(_, _, _, _, _, _, _)) ==
+  CASE o.kind = "units" ->
+         <<F(o, ps, ps, FALSE, ms, d, v),
+           F(OtherObj(o), ps, ps, FALSE, ms, QMul(d, QP10(UExp(o.ud) - UExp(o.ud2))), QMul(v, QP10(UExp(o.uv) - UExp(o.uv2))))>>
+    [] o.kind = "add_existing" ->
+         <<F(o, [i \in 1..Len(ps) |-> IF i = JOf(o, Len(ps)) THEN QAdd(ps[i], QAdded) ELSE ps[i]], ps, FALSE, ms, d, v)>>
+    [] o.kind = "perturbed" -> <<F(o, ps, ps, FALSE, ms, d, v), F(o, ps, ps, TRUE, ms, d, v)>>
+    [] OTHER -> <<F(o, ps, ps, FALSE, ms, d, v)>>
 ScRaises(ws) == \E i \in 1..Len(ws) : ws[i].raises
 ScEnv(o, ps, ms, d, v, ws) ==
-  LET base == EnvSeq("inp:A.p.", ps, 1) @@ ("inp:A.d" :> d) @@ ("inp:A.v" :> v) @@ (TabKey(CTerm) :> CDa)
+  LET base == EnvSeq("inp:A.p.", ps, 1) @@ ("inp:A.d" :> d) @@ ("inp:A.v" :> v) @@ ("inp:A.q" :> QAdded) @@ (TabKey(CTerm) :> CDa)
              @@ ObjEnv("A", ws[1], ms, o)
-  IN  IF Len(ws) = 1 THEN base ELSE base @@ ObjEnv("B", ws[2], ms, OtherObj(o))
+  IN  IF Len(ws) = 1 THEN base
+      ELSE IF o.kind = "units" THEN base @@ ObjEnv("B", ws[2], ms, OtherObj(o))
+      ELSE base @@ ObjEnv("P", ws[2], ms, o)
 
 ---------------------------------------------------------------------------
-NoSc == [kind |-> "none", cls |-> "", mode |-> "", form |-> "", given |-> "", vol |-> FALSE, ud |-> "", uv |-> "", ud2 |-> "", uv2 |-> ""]
+NoSc == [kind |-> "none", cls |-> "", mode |-> "", form |-> "", given |-> "", vol |-> FALSE, ud |-> "", uv |-> "", ud2 |-> "", uv2 |-> "", j |-> 0]
 \* <<class, mode, form>> ; form: how the components are given - "dict" (filled by add()) or "text" (an expression)
 ClsModes == {<<"element", "NUMBER", "text">>} \cup {<<"substance", "NUMBER", f>> : f \in {"dict", "text"}}
             \cup {<<"material", md, f>> : md \in {"NUMBER", "NUMBER_FRACTION", "MASS_FRACTION"}, f \in {"dict", "text"}}
 Scenarios ==
-  LET base == {[kind |-> "single", cls |-> c[1], mode |-> c[2], form |-> c[3], given |-> g, vol |-> FALSE, ud |-> u, uv |-> "", ud2 |-> "", uv2 |-> ""] :
+  LET base == {[kind |-> "single", cls |-> c[1], mode |-> c[2], form |-> c[3], given |-> g, vol |-> FALSE, ud |-> u, uv |-> "", ud2 |-> "", uv2 |-> "", j |-> 0] :
                   c \in ClsModes, g \in {"rho", "n"}, u \in {"g/cm3", "kg/m3", "cm-3", "m-3"}}
-              \cup {[kind |-> "single", cls |-> c[1], mode |-> c[2], form |-> c[3], given |-> g, vol |-> TRUE, ud |-> u, uv |-> w, ud2 |-> "", uv2 |-> ""] :
+              \cup {[kind |-> "single", cls |-> c[1], mode |-> c[2], form |-> c[3], given |-> g, vol |-> TRUE, ud |-> u, uv |-> w, ud2 |-> "", uv2 |-> "", j |-> 0] :
                   c \in ClsModes, g \in {"rho", "n"}, u \in {"g/cm3", "kg/m3", "cm-3", "m-3"}, w \in VUnits}
       single == {s \in base : s.ud \in DUnits(s.given)}
       \* the same inputs in standard units (A) and in any other combination of units (B)
       pairs == {[s EXCEPT !.kind = "units", !.ud2 = s.ud, !.uv2 = s.uv, !.ud = DStd(s.given), !.uv = IF s.vol THEN "cm3" ELSE ""] :
                   s \in {t \in single : t.ud # DStd(t.given) \/ (t.vol /\ t.uv # "cm3")}}
-  IN  single \cup pairs
+      \* histories: standard units, and the other density unit together with litres
+      hist == {t \in single : (t.ud = DStd(t.given) /\ t.uv \in {"", "cm3"}) \/ (t.ud # DStd(t.given) /\ t.uv \in {"", "l"})}
+      \* a component that is already there is topped up after construction (the first / the last one)
+      adds == {[t EXCEPT !.kind = "add_existing", !.j = jj] : t \in {u \in hist : u.cls # "element"}, jj \in {1, 2}}
+      \* the caller converts what the object reports / holds, in place, to other units
+      perts == {[t EXCEPT !.kind = "perturbed"] : t \in hist}
+  IN  single \cup pairs \cup adds \cup perts
 
 VARIABLES comps, sc, dv
 Init == comps = <<>> /\ sc = NoSc /\ dv = <<0, 0>>
@@ -192,21 +231,22 @@ Next == /\ sc = NoSc
            \/ /\ Len(comps) >= 1
               /\ \E s \in Scenarios, d \in DVals, v \in VVals :
                     /\ s.cls = "element" => Len(comps) = 1
+                    /\ s.j = 2 => Len(comps) >= 2
                     /\ sc' = s /\ dv' = <<d, v>>
               /\ UNCHANGED comps
 
 K  == Len(comps)
 Ps == [i \in 1..K |-> QI(comps[i].p)]
 Ms == [i \in 1..K |-> QI(comps[i].m)]
-Ideal5(o, ps, ms, d, v) == Ideal(o, ps, ms, d, v)
-Mach5(o, ps, ms, d, v)  == Machine(o, ps, ms, d, v, "")
+Ideal5(o, ps, pn, pert, ms, d, v) == Ideal(o, ps, ms, d, v)
+Mach5(o, ps, pn, pert, ms, d, v)  == Machine(o, ps, pn, pert, ms, d, v, "")
 
 DevTags(o, ps) == (IF o.cls = "material" /\ o.mode = "MASS_FRACTION" THEN {"mass_fraction_mode"} ELSE {})
                   \cup (IF o.cls = "element" /\ ps[1] # <<1, 1>> THEN {"element_proportion"} ELSE {})
                   \cup (IF o.cls # "element" /\ o.form = "dict" /\ o.given = "n" /\ Len(ps) >= 2 THEN {"number_density_dict_form"} ELSE {})
 Tags(o, k, ps) == {o.kind, o.cls, o.mode, "form_" \o o.form, "given_" \o o.given, IF o.vol THEN "volume" ELSE "no_volume", "k" \o IStr(k)} \cup DevTags(o, ps)
 
-Record == [kind |-> sc.kind, cls |-> sc.cls, mode |-> sc.mode, k |-> K, given |-> sc.given, vol |-> sc.vol,
+Record == [kind |-> sc.kind, cls |-> sc.cls, mode |-> sc.mode, k |-> K, given |-> sc.given, vol |-> sc.vol, j |-> sc.j,
            p |-> [i \in 1..K |-> comps[i].p], d |-> dv[1], v |-> dv[2],
            \* may the harness re-draw the proportions?  (an element's proportion decides which scenario it is)
            pfree |-> sc.cls # "element",
@@ -232,7 +272,7 @@ SoundMachine == sc # NoSc => \/ DevTags(sc, Ps) \cap KnownDevs # {}
 Complete ==
   sc # NoSc =>
     \A mu \in Mutants \cup {""} :
-        LET MutF(o, ps, ms, dd, vv) == Machine(o, ps, ms, dd, vv, mu)
+        LET MutF(o, ps, pn, pert, ms, dd, vv) == Machine(o, ps, pn, pert, ms, dd, vv, mu)
             wx == ScVals(sc, Ps, Ms, DNow, VNow, MutF)
         IN  (~ScRaises(wx) /\ wx # WIdeal) => ~AllHoldQ(OblNow, ScEnv(sc, Ps, Ms, DNow, VNow, wx))
 EmitRec ==
